@@ -5,6 +5,11 @@ Every leg has the same three-way comparison as the main check:
   real pytype on generated programs  vs  the Coq model (Match/ArgSite.v, Match/Store.v; correspondence)
                                      vs  a direct oracle on CPython (inspect.Signature.bind / symtable + PEP 526
                                          declared type + run-time membership of the value; the property itself).
+Leg (c) is TWO-VARIANT: Match/ArgSite.v models Signature.iter_args before and after
+fixes/C02-iter-args-keyword-binding.patch (iter_args false / true); probe_variant() asks the tree under test which
+one it implements (three probe calls that must agree), the correspondence runs against that variant, the three
+argument-site findings are reported only on the old variant, and on a fixed tree any disagreement with the
+binding oracle is unexplained (a regression of the fix is a VIOLATION).
 A disagreement with the oracle is either one of the NAMED deviations the Coq development proves real
 (fingerprints below) or a VIOLATION with a concrete replay (a self-contained source + line)."""
 import inspect
@@ -262,9 +267,35 @@ Definition arg_run (sc : sig nat * call nat) : list (list nat) :=
   [ [if wf_sig s && ann_keys_ok nat s then 1 else 0; if kw_named_like_star s c then 1 else 0;
      if kw_unannotated_with_kwargs s c then 1 else 0;
      match bind s c with Some _ => 1 | None => 0 end];
-    flat (iter_args s c);
-    match bind s c with Some l => flat l | None => [] end ].
+    flat (iter_args false s c);
+    match bind s c with Some l => flat l | None => [] end;
+    flat (iter_args true s c) ].
 """
+
+
+ARG_PROBES = [
+    # (source, line of the call): before fixes/C02-iter-args-keyword-binding.patch each of these calls is rejected
+    # (the third one makes pytype raise AssertionError); the fixed code accepts all three, as CPython's binding says
+    ("def f(**kw: int): ...\nf(kw=1)\n", 2),
+    ("def f(a, *, k, **kw: int): ...\nf(1, k=\"x\")\n", 2),
+    ("def f(*rest, **kw: float): ...\nf(rest=1.5)\n", 2),
+]
+
+
+def probe_variant():
+  """Which variant of Signature.iter_args the tree under test implements.  Returns (fixed: bool, consistent: bool,
+  detail).  Needs pytype bootstrapped in this process."""
+  verdicts = []
+  for src, line in ARG_PROBES:
+    try:
+      errs = G.run_pytype(src)
+      verdicts.append("old" if any(n == "wrong-arg-types" and l == line for n, l, _ in errs) else "fixed")
+    except AssertionError:
+      verdicts.append("old")
+    except Exception as e:   # pylint: disable=broad-except
+      verdicts.append("raises:" + type(e).__name__)
+  fixed = verdicts.count("fixed") * 2 > len(verdicts)
+  return fixed, len(set(verdicts)) == 1 and verdicts[0] in ("old", "fixed"), verdicts
 
 
 def decode_assoc(flat):
@@ -315,7 +346,8 @@ def gen_store_case(r):
   for _ in range(n_more):
     k = r.choice(["store", "store", "store", "store", "forstore", "unpack", "del", "reann", "nonlocal"])
     bound = events[-1]["kind"] != "del" and any(e.get("val") is not None for e in events)
-    if k == "nonlocal" and not (frame == "func" and bound):
+    # (a name written through `nonlocal` is a cell: like a captured name it is never deleted, see below)
+    if k == "nonlocal" and not (frame == "func" and bound and all(e["kind"] != "del" for e in events)):
       k = "store"
     if k == "reann":
       if r.random() < 0.5:
@@ -328,7 +360,8 @@ def gen_store_case(r):
     if k == "del":
       # (a captured name is never deleted: pytype analyses the nested body after the frame and reports the name
       # as undefined there)
-      if capture is not None or events[-1]["kind"] == "del" or events[-1].get("val") is None:
+      if (capture is not None or events[-1]["kind"] == "del" or events[-1].get("val") is None
+          or any(e["kind"] == "nonlocal" for e in events)):
         continue
       events.append({"kind": "del"})
       continue
@@ -551,8 +584,11 @@ ARG_FPS = {"d1": "argsite:kwarg-named-like-star-param", "d2": "argsite:kwarg-una
 STORE_FPS = {"nonlocal": "assign:nonlocal-store-unchecked", "global": "assign:store-global-unchecked"}
 
 
-def evaluate(res, arg_cases, st_cases, progs, impl, coq_terms):
-  """Three-way comparison for both legs; records obligations, counts, violations in res."""
+def evaluate(res, arg_cases, st_cases, progs, impl, coq_terms, arg_fixed=False):
+  """Three-way comparison for both legs; records obligations, counts, violations in res.  arg_fixed: the probed
+  variant of Signature.iter_args (Match/ArgSite.v iter_args true / false) the correspondence is run against; the
+  named argument-site deviations exist only in the old variant, so on a fixed tree every disagreement with the
+  oracle is unexplained (a regression of the fix is a VIOLATION)."""
   errs = {}          # (leg, case, event) -> bool | 'crash:<Type>'
   unexpected = []
   impl_ok = True
@@ -616,7 +652,8 @@ def evaluate(res, arg_cases, st_cases, progs, impl, coq_terms):
               "expect_error": orc, "binding": case["binding"]}
     names = [n for n, _ in named]
     if coq_ok:
-      flags, it, bd = arg_out[i]
+      flags, it_old, bd, it_fixed = arg_out[i]
+      it = it_fixed if arg_fixed else it_old
       n_corr += 1
       massoc = decode_assoc(it)
       if any(f is not None and f[0] == "crash" for f in massoc.values()):
@@ -648,8 +685,8 @@ def evaluate(res, arg_cases, st_cases, progs, impl, coq_terms):
       # parameter while **kwargs is annotated (the widen_type assertion, Match/ArgSiteProofs.v crash_w)
       hist["crash"] = hist.get("crash", 0) + 1
       what = "pytype raises %s instead of reporting: %s" % (e.split(":")[1], case["src"].replace("\n", " ; "))
-      if (e == "crash:AssertionError" and s["varargs"] in names and s["varargs"] not in s["ann"]
-          and s["kwargs"] in s["ann"]):
+      if (not arg_fixed and e == "crash:AssertionError" and s["varargs"] in names
+          and s["varargs"] not in s["ann"] and s["kwargs"] in s["ann"]):
         report("argsite:crash:AssertionError:kwarg-named-like-unannotated-varargs", what, replay, True)
       else:
         n_unexpl += 1
@@ -659,8 +696,8 @@ def evaluate(res, arg_cases, st_cases, progs, impl, coq_terms):
       what = "%s at the argument site: %s" % ("error on a conforming call" if e else "missed violation",
                                                 case["src"].replace("\n", " ; "))
       fps = []
-      if coq_ok:
-        flags, it, bd = arg_out[i]
+      if coq_ok and not arg_fixed:
+        flags, it, bd, _ = arg_out[i]
         massoc, bassoc = decode_assoc(it), decode_assoc(bd)
         # explained iff the model reproduces pytype, the binding reproduces the oracle, and every argument whose
         # verdict differs between the two associations is one of the named deviations
@@ -686,8 +723,8 @@ def evaluate(res, arg_cases, st_cases, progs, impl, coq_terms):
       else:
         n_unexpl += 1
         report("unexplained:argsite:%s" % ("false-error" if e else "missed"), what, replay, False)
-  res.obligation("correspondence:argsite model(iter_args)-vs-pytype", coq_ok and n_corr_bad == 0,
-                 "%d of %d call verdicts disagree" % (n_corr_bad, n_corr))
+  res.obligation("correspondence:argsite model(iter_args %s)-vs-pytype" % ("fixed" if arg_fixed else "before-fix"),
+                 coq_ok and n_corr_bad == 0, "%d of %d call verdicts disagree" % (n_corr_bad, n_corr))
   res.obligation("argsite:Coq bind = inspect.Signature.bind on every generated call", n_bind_bad == 0,
                  "%d differ" % n_bind_bad)
   res.obligation("oracle:argsite unexplained disagreements", n_unexpl == 0, "%d" % n_unexpl)
